@@ -33,6 +33,24 @@ NUMERIC_BY_CONTRACT = {
 }
 
 
+def contract_numeric(prog, h):
+    """the reason a hole is numeric by API contract, or None: an element of a chart `values` sequence (whatever the loop variable
+    is called), or one of the documented numeric parameters by name"""
+    e = h.expr
+    if isinstance(e, ast.Name) and h.fc is not None and h.fc.fn is not None:
+        from sa.itersrc import source_of
+
+        for n in ast.walk(h.fc.fn.node):
+            if isinstance(n, (ast.For, ast.comprehension)) and any(isinstance(x, ast.Name) and x.id == e.id for x in ast.walk(n.target)):
+                it = n.iter.args[0] if isinstance(n.iter, ast.Call) and dotted(n.iter.func) == "enumerate" and n.iter.args else n.iter
+                idx_var = isinstance(n.iter, ast.Call) and dotted(n.iter.func) == "enumerate" and isinstance(n.target, ast.Tuple) \
+                    and isinstance(n.target.elts[0], ast.Name) and n.target.elts[0].id == e.id
+                t = source_of(h.fc.fn.node, it, None, None)["terminal"] or ""
+                if not idx_var and (t == "values" or t.endswith(".values")):
+                    return NUMERIC_BY_CONTRACT["value"]
+    return NUMERIC_BY_CONTRACT.get(h.src)
+
+
 def classify(prov, mk):
     """(verdict, labels, witness) for one marker."""
     h = mk.hole
@@ -133,8 +151,9 @@ def run(ctx):
                                   ("/@" + mk.attr.split("}")[-1]) if mk.attr else "/text()")
             verdict, labels, wit = classify(prov, mk)
             base = h.src.split(".")[-1].split("(")[0]
-            if verdict != "safe" and h.src in NUMERIC_BY_CONTRACT and not (labels & {"FILE", "DOC"}):
-                assumed.add("%s: %s" % (key, NUMERIC_BY_CONTRACT[h.src]))
+            why_num = contract_numeric(prog, h) if verdict != "safe" else None
+            if verdict != "safe" and why_num and not (labels & {"FILE", "DOC"}):
+                assumed.add("%s: %s" % (key, why_num))
                 ctx.ok("R5.1", key, nontrivial=True, sample={"hole": h.src, "context": mk.ctx, "verdict": "numeric by API contract"})
                 continue
             if verdict == "undecided":
